@@ -202,6 +202,7 @@ class CallsMixin:
             if self.fork(st, may):
                 st.assume(z3.Or(pos) if len(pos) > 1 else pos[0])
                 raise PanicEx('callee %s may panic' % key)
+        self.bump_top(st)             # the callee may allocate
         # havoc what the callee assigns
         for cl in c.get('assigns'):
             for target in speclang.split_top(cl.text, ','):
@@ -212,6 +213,7 @@ class CallsMixin:
         for r, t in zip(results, rtypes):
             for w in self.lay.wf(r, t):
                 st.assume(w)
+            self.bound_value(st, r, t)
         rb = dict(binds)
         for n, r in zip(rnames, results):
             rb[n] = r
@@ -365,6 +367,7 @@ class CallsMixin:
                         if f['n'] == target[2]:
                             v = self.lay.fresh(f['t'], 'hv.' + f['n'])
                             for w in self.lay.wf(v, f['t']): st.assume(w)
+                            self.bound_value(st, v, f['t'])
                             nf = dict(x.fields); nf[f['n']] = v
                             st.env[oid] = StructV(x.tid, nf)
                             return
@@ -374,6 +377,7 @@ class CallsMixin:
                     if f['n'] == target[2]:
                         v = self.lay.fresh(f['t'], 'hv.' + f['n'])
                         for w in self.lay.wf(v, f['t']): st.assume(w)
+                        self.bound_value(st, v, f['t'])
                         self.store_field(st, x, self.tt.name(tid), f['n'], f['t'], v)
                         return
         if target[0] == 'call' and target[1][0] == 'id':      # ghost heap cell: out(w)
@@ -395,6 +399,7 @@ class CallsMixin:
                 raise Unsupported('assigns deref(...) of a value that is not a known pointer')
             v = self.lay.fresh(x.etid, 'hv.deref')
             for w in self.lay.wf(v, x.etid): st.assume(w)
+            self.bound_value(st, v, x.etid)
             self.store_ptr(st, x, v)
             return
         raise Unsupported('assigns target %r' % (target,))
@@ -551,7 +556,10 @@ class CallsMixin:
         rtypes = []
         if tid is not None and tid >= 0:
             rtypes = self.tt[tid]['es'] if self.tt.kind(tid) == 'tuple' else [tid]
+        self.bump_top(st)
         results = [self.lay.fresh(t, 'cb') for t in rtypes]
+        for r, t in zip(results, rtypes):
+            self.bound_value(st, r, t)
         return results[0] if len(results) == 1 else TupleV(results)
 
     # -- conversions ------------------------------------------------------------------------------
